@@ -160,7 +160,7 @@ const RULE_CMDS : [(&[&str], &str); 7] = [
     (&["song.txt"], "mycat refrain.txt verse.txt song.txt"), (&["album.txt"], "mycat song.txt note.txt album.txt")];
 
 #[derive(Clone, Copy, Debug, PartialEq)]
-enum Act { VerseA, VerseB, RefrainS, Build, BuildPoem, Clean, CleanStanza, TamperStanza, DeleteStanza, DropCacheEntryOfStanza, HiddenGone, HiddenBack, NoteLikeVerseA, CleanAside, SwapVerseRefrain, DropSongRules, DeleteAside, NoteP, NoteN, StashStanza, UnstashStanza, SwapLeftRight, DropWholeCache, EditRightSrc }
+enum Act { VerseA, VerseB, RefrainS, Build, BuildPoem, Clean, CleanStanza, TamperStanza, DeleteStanza, DropCacheEntryOfStanza, HiddenGone, HiddenBack, NoteLikeVerseA, CleanAside, SwapVerseRefrain, DropSongRules, DeleteAside, NoteP, NoteN, StashStanza, UnstashStanza, SwapLeftRight, DropWholeCache, EditRightSrc, TailSwapArgs, EditLeftSrc }
 const ACTS : [Act; 12] = [Act::VerseA, Act::VerseB, Act::RefrainS, Act::Build, Act::BuildPoem, Act::Clean, Act::CleanStanza, Act::TamperStanza, Act::DeleteStanza, Act::DropCacheEntryOfStanza, Act::HiddenGone, Act::HiddenBack];
 
 fn params(goal: Option<&str>) -> BuildParams { BuildParams::from_all(".ruler".to_string(), vec!["build.rules".to_string()], None, goal.map(|s| s.to_string())) }
@@ -202,6 +202,12 @@ fn cache_ok(system: &FakeSystem) -> Option<String>
 
 struct Outcome { finals: Vec<Option<String>>, verdicts: Vec<bool>, complaints: Vec<(String, String)> }
 
+fn rules_text(reduced: bool, tail_swapped: bool) -> String
+{
+    let cut = RULES.find("song.txt\n:").unwrap();
+    let t = if reduced { RULES[..cut].to_string() } else { RULES.to_string() };
+    if tail_swapped { assert!(t.contains("mycat\nright.txt\nrefrain.txt\ntail.txt\n")); t.replace("mycat\nright.txt\nrefrain.txt\ntail.txt\n", "mycat\nrefrain.txt\nright.txt\ntail.txt\n") } else { t }
+}
 fn run_history(h: &Vec<Act>, drop_table: bool) -> Outcome { run_history_clock(h, drop_table, false) }
 /*  fine: the clock ticks at every mutation ruler makes (every write gets its own modification time) instead of once per invocation */
 fn run_history_clock(h: &Vec<Act>, drop_table: bool, fine: bool) -> Outcome
@@ -223,6 +229,7 @@ fn run_history_clock(h: &Vec<Act>, drop_table: bool, fine: bool) -> Outcome
     let mut complaints = vec![]; let mut verdicts = vec![];
     let mut last_was_ok_build = false; let mut last_was_clean_after_ok_build = false;
     let mut reduced = false;      /*  song.txt / album.txt no longer have rules */
+    let mut tail_swapped = false;      /*  the command of tail.txt names its two inputs in the other order (a rules-file edit that keeps the set of command words) */
     let mut seen_ok : BTreeSet<(String, String, String)> = BTreeSet::new();      /*  source states built successfully since the last disturbance */
     let mut now : u64 = 10;      /*  the time of `system` (FakeSystem::new(10)), tracked here because clones carry their own copy */
     for a in h.iter()
@@ -247,6 +254,7 @@ fn run_history_clock(h: &Vec<Act>, drop_table: bool, fine: bool) -> Outcome
             },
             /*  only the SECOND target of the two-target rule changes */
             Act::EditRightSrc => { write_str_to_file(&mut system, "r_src.txt", "Right, revised.\n").unwrap(); },
+            Act::EditLeftSrc => { write_str_to_file(&mut system, "l_src.txt", "Left, revised.\n").unwrap(); },
             Act::DropWholeCache => { if let Ok(names) = system.list_dir(".ruler/cache") { for n in names { if system.is_file(&n) { system.remove_file(&n).unwrap(); } } } },
             Act::DeleteAside => { if system.is_file("aside.txt") { system.remove_file("aside.txt").unwrap(); } },
             Act::NoteP => { write_str_to_file(&mut system, "note.txt", "P.S.\n").unwrap(); },
@@ -263,8 +271,15 @@ fn run_history_clock(h: &Vec<Act>, drop_table: bool, fine: bool) -> Outcome
             /*  the rules of song.txt and album.txt are taken out of the rules file: from now on these two files are nobody's targets */
             Act::DropSongRules =>
             {
-                let cut = RULES.find("song.txt\n:").unwrap();
-                write_str_to_file(&mut system, "build.rules", &RULES[..cut]).unwrap(); reduced = true;
+                reduced = true;
+                write_str_to_file(&mut system, "build.rules", &rules_text(reduced, tail_swapped)).unwrap();
+            },
+            /*  the user edits the rules file: the command of tail.txt now reads its inputs in the other order (same words, same sources,
+                same target; a different command with a different output) -- and back again with the next TailSwapArgs */
+            Act::TailSwapArgs =>
+            {
+                tail_swapped = !tail_swapped;
+                write_str_to_file(&mut system, "build.rules", &rules_text(reduced, tail_swapped)).unwrap();
             },
             Act::HiddenGone => { if system.is_file("hidden.txt") { system.remove_file("hidden.txt").unwrap(); } },
             Act::HiddenBack => { write_str_to_file(&mut system, "hidden.txt", "(hidden)\n").unwrap(); },
@@ -298,6 +313,7 @@ fn run_history_clock(h: &Vec<Act>, drop_table: bool, fine: bool) -> Outcome
                     for (targets, cmd) in RULE_CMDS.iter()
                     {
                         if reduced && (targets[0] == "song.txt" || targets[0] == "album.txt") { continue; }
+                        let cmd : &str = if targets[0] == "tail.txt" && tail_swapped { "mycat refrain.txt right.txt tail.txt" } else { cmd };
                         let ran = new_log.iter().any(|c| c.starts_with(cmd));
                         for t in targets.iter()
                         {
@@ -362,17 +378,17 @@ fn run_history_clock(h: &Vec<Act>, drop_table: bool, fine: bool) -> Outcome
                 let distinct =
                 {
                     let (v, r, n) = (read(&system, "verse.txt").unwrap(), read(&system, "refrain.txt").unwrap(), read(&system, "note.txt").unwrap());
-                    let mut all = vec![v.clone(), format!("{}{}", v, r), n.clone(), format!("{}{}", n, r), read(&system, "l_src.txt").unwrap(), read(&system, "r_src.txt").unwrap(), format!("{}{}", read(&system, "r_src.txt").unwrap(), r)];
+                    let mut all = vec![v.clone(), format!("{}{}", v, r), n.clone(), format!("{}{}", n, r), read(&system, "l_src.txt").unwrap(), read(&system, "r_src.txt").unwrap(), if tail_swapped { format!("{}{}", r, read(&system, "r_src.txt").unwrap()) } else { format!("{}{}", read(&system, "r_src.txt").unwrap(), r) }];
                     if !reduced { all.push(format!("{}{}", r, v)); all.push(format!("{}{}{}", r, v, n)); }
                     let k = all.len(); all.sort(); all.dedup(); all.len() == k
                 };
-                let state = (read(&system, "verse.txt").unwrap(), read(&system, "refrain.txt").unwrap(), format!("{}|{}|{}", read(&system, "note.txt").unwrap(), read(&system, "l_src.txt").unwrap(), read(&system, "r_src.txt").unwrap()));
+                let state = (read(&system, "verse.txt").unwrap(), read(&system, "refrain.txt").unwrap(), format!("{}|{}|{}|{}", read(&system, "note.txt").unwrap(), read(&system, "l_src.txt").unwrap(), read(&system, "r_src.txt").unwrap(), tail_swapped));
                 if ok
                 {
                     /*  C01: from-scratch outputs of the current sources */
                     let verse = read(&system, "verse.txt").unwrap(); let refrain = read(&system, "refrain.txt").unwrap(); let note = read(&system, "note.txt").unwrap();
                     let mut expect = vec![("stanza.txt", verse.clone()), ("poem.txt", format!("{}{}", verse, refrain))];
-                    if goal.is_none() { expect.push(("left.txt", read(&system, "l_src.txt").unwrap())); expect.push(("right.txt", read(&system, "r_src.txt").unwrap())); expect.push(("tail.txt", format!("{}{}", read(&system, "r_src.txt").unwrap(), refrain))); expect.push(("aside.txt", note.clone())); expect.push(("copy.txt", format!("{}{}", note, refrain))); if !reduced { expect.push(("song.txt", format!("{}{}", refrain, verse))); expect.push(("album.txt", format!("{}{}{}", refrain, verse, note))); } }
+                    if goal.is_none() { expect.push(("left.txt", read(&system, "l_src.txt").unwrap())); expect.push(("right.txt", read(&system, "r_src.txt").unwrap())); expect.push(("tail.txt", if tail_swapped { format!("{}{}", refrain, read(&system, "r_src.txt").unwrap()) } else { format!("{}{}", read(&system, "r_src.txt").unwrap(), refrain) })); expect.push(("aside.txt", note.clone())); expect.push(("copy.txt", format!("{}{}", note, refrain))); if !reduced { expect.push(("song.txt", format!("{}{}", refrain, verse))); expect.push(("album.txt", format!("{}{}{}", refrain, verse, note))); } }
                     for (p, want) in expect.iter()
                     {
                         if read(&system, p).as_ref() != Some(want) { complaints.push(("B-build-C01".to_string(), format!("after a successful build {} holds {:?}, a from-scratch build gives {:?}", p, read(&system, p), want))); }
@@ -514,6 +530,18 @@ fn verif_build_long_histories()
         vec![Build, EditRightSrc, Build, SwapLeftRight, Build],
         vec![Build, VerseB, NoteLikeVerseA, Build, CleanAside, DeleteStanza, VerseA, Build],
         vec![Build, VerseB, NoteLikeVerseA, Build, CleanAside, CleanStanza, VerseA, Build],
+        /*  a target comes back from the cache, is then found up to date, and is displaced by the next edit */
+        vec![Build, VerseB, Build, VerseA, Build, Build, VerseB, Build],
+        vec![Build, VerseB, Build, VerseA, Build, Build, RefrainS, Build, VerseB, Build],
+        /*  the two targets of one rule trade contents and trade back (each restore puts back the file the other path just lost), then one changes */
+        vec![Build, SwapLeftRight, Build, SwapLeftRight, Build, EditRightSrc, Build],
+        vec![Build, SwapLeftRight, Build, SwapLeftRight, Build, EditLeftSrc, Build],
+        vec![Build, SwapLeftRight, Build, SwapLeftRight, Build, Build, EditRightSrc, Build, Clean, Build],
+        /*  rules-file edits that keep a command's words and change their order */
+        vec![Build, TailSwapArgs, Build],
+        vec![Build, TailSwapArgs, Build, TailSwapArgs, Build],
+        vec![Build, TailSwapArgs, Build, Clean, Build, TailSwapArgs, Build],
+        vec![TailSwapArgs, Build, DropSongRules, TailSwapArgs, Build],
     ];
     let names = ["B-build-C01", "B-build-C02", "B-build-C04", "B-build-C07", "B-build-C08", "B-build-C09", "B-build-C10", "B-build-C18", "B-build-C20"];
     let mut bad = vec![0u64; names.len()];
@@ -528,4 +556,329 @@ fn verif_build_long_histories()
         for (name, what) in o3.complaints.iter() { let k = names.iter().position(|n| n == name).unwrap(); bad[k] += 1; println!("WITNESS {}-long :: {:?} (fine clock) :: {}", name, h, what); }
     }
     for (k, n) in names.iter().enumerate() { println!("SUMMARY {}-long cases={} disagreements={}", n, hs.len(), bad[k]); }
+}
+
+/*  ---------------------------------------------------------------------------------------------------------------------------
+    MINI SCENARIOS: small workspaces with shapes the big one lacks (targets in sub-directories, names that differ by leading dots,
+    executable targets, several rules failing alike), each with a few hand-picked histories.  The oracles are generic -- they need no
+    hand-written model of the rules:
+      C01  after a successful build every target equals what the real build() gives on a FRESH file system holding the same
+           non-target files (a from-scratch build; if that one fails nothing is compared)
+      C02  a build right after a successful build (or after build + clean) runs no command when the target contents are pairwise different
+      C04 / C20  a build marked BuildErrors(n) reports exactly n failures
+      C05  build() / clean() return (a panic is a disagreement)
+      C07 / C08  as above (cache entries named by content; contents held before are held after)
+      C09  no non-target file outside the ruler directory changes, none appears or disappears, and the set of directories outside
+           the ruler directory stays as it was
+      C10  after a successful clean no target is left; a target that was executable when it was cleaned away is executable again
+           after the next successful build
+      C18  the same history with the table erased before every invocation gives the same verdicts and files
+    --------------------------------------------------------------------------------------------------------------------------- */
+#[derive(Clone, Copy, Debug, PartialEq)]
+enum Op { Build, BuildErrors(usize), Clean, Write(&'static str, &'static str), Delete(&'static str), RemoveDir(&'static str), MkDir(&'static str), SetExec(&'static str) }
+struct Mini { name: &'static str, rules: &'static str, files: &'static [(&'static str, &'static str)], dirs: &'static [&'static str], targets: &'static [&'static str], histories: Vec<Vec<Op>> }
+
+type Snap = (std::collections::BTreeMap<String, (String, std::time::SystemTime, bool)>, BTreeSet<String>);
+fn walk(system: &FakeSystem, dir: &str, snap: &mut Snap)
+{
+    if let Ok(names) = system.list_dir(dir)
+    {
+        for n in names
+        {
+            let p = n.trim_start_matches('/').to_string();
+            if p == ".ruler" { continue; }
+            if system.is_dir(&p) { snap.1.insert(p.clone()); walk(system, &p, snap); }
+            else if let Some(st) = stat(system, &p) { snap.0.insert(p, st); }
+        }
+    }
+}
+fn snapshot(system: &FakeSystem) -> Snap { let mut s : Snap = (std::collections::BTreeMap::new(), BTreeSet::new()); walk(system, "", &mut s); s }
+fn held_mini(system: &FakeSystem, targets: &[&str]) -> BTreeSet<String>
+{
+    let mut out = BTreeSet::new();
+    for t in targets.iter() { if let Some(c) = read(system, t) { out.insert(c); } }
+    if let Ok(names) = system.list_dir(".ruler/cache") { for n in names { if let Some(c) = read(system, &n) { out.insert(c); } } }
+    out
+}
+/*  what the real build() makes of these non-target files on a fresh file system */
+fn from_scratch(m: &Mini, snap: &Snap) -> Option<Vec<Option<String>>>
+{
+    let mut fresh = FakeSystem::new(10);
+    for d in snap.1.iter() { fresh.create_dir(d).ok()?; }
+    for (p, (c, _, x)) in snap.0.iter() { if !m.targets.contains(&p.as_str()) { write_str_to_file(&mut fresh, p, c).ok()?; if *x { fresh.set_is_executable(p, true).ok()?; } } }
+    fresh.time_passes(1);
+    match build(fresh.clone(), &mut EmptyPrinter::new(), params(None)) { Ok(()) => Some(m.targets.iter().map(|t| read(&fresh, t)).collect()), Err(_) => None }
+}
+fn run_mini(m: &Mini, h: &Vec<Op>, drop_table: bool) -> Outcome
+{
+    let mut system = FakeSystem::new(10);
+    for d in m.dirs.iter() { system.create_dir(d).unwrap(); }
+    write_str_to_file(&mut system, "build.rules", m.rules).unwrap();
+    for (p, c) in m.files.iter() { write_str_to_file(&mut system, p, c).unwrap(); }
+    let mut complaints = vec![]; let mut verdicts = vec![];
+    let mut quiet_since_ok_build = false;      /*  the last invocations were: a successful build [, a successful clean], nothing else */
+    let mut exec_at_clean : Vec<(String, bool)> = vec![];
+    for op in h.iter()
+    {
+        system.time_passes(1);
+        let before = snapshot(&system);
+        let held_before = held_mini(&system, m.targets);
+        let log_before = system.get_command_log().len();
+        let mut is_ruler = false;
+        match op
+        {
+            Op::Write(p, c) => { write_str_to_file(&mut system, p, c).unwrap(); quiet_since_ok_build = false; },
+            Op::Delete(p) => { if system.is_file(p) { system.remove_file(p).unwrap(); } quiet_since_ok_build = false; exec_at_clean.retain(|(q, _)| q != p); },
+            Op::RemoveDir(p) => { if system.is_dir(p) { let _ = system.remove_dir(p); } quiet_since_ok_build = false; },
+            Op::MkDir(p) => { if !system.is_dir(p) { system.create_dir(p).unwrap(); } quiet_since_ok_build = false; },
+            Op::SetExec(p) => { if system.is_file(p) { system.set_is_executable(p, true).unwrap(); } quiet_since_ok_build = false; },
+            Op::Build | Op::BuildErrors(_) =>
+            {
+                is_ruler = true;
+                if drop_table && system.is_file(".ruler/current_file_states") { system.remove_file(".ruler/current_file_states").unwrap(); }
+                let sys2 = system.clone();
+                let result = match std::panic::catch_unwind(std::panic::AssertUnwindSafe(move || build(sys2, &mut EmptyPrinter::new(), params(None))))
+                {
+                    Ok(r) => r,
+                    Err(_) => { complaints.push(("B-build-C05".to_string(), "build() panicked".to_string())); verdicts.push(false); continue; },
+                };
+                let ok = result.is_ok();
+                verdicts.push(ok);
+                let ran = system.get_command_log()[log_before..].len();
+                if let Op::BuildErrors(n) = op
+                {
+                    let got = match &result { Err(crate::build::BuildError::WorkErrors(v)) => v.len(), Err(_) => 1, Ok(()) => 0 };
+                    if got != *n
+                    {
+                        complaints.push(("B-build-C04".to_string(), format!("{} rule(s) fail in this build, {} failure(s) reported", n, got)));
+                        complaints.push(("B-build-C20".to_string(), format!("{} rule(s) fail in this build, {} failure(s) reported", n, got)));
+                    }
+                }
+                if ok
+                {
+                    let after = snapshot(&system);
+                    if let Some(want) = from_scratch(m, &after)
+                    {
+                        for (t, w) in m.targets.iter().zip(want.iter())
+                        {
+                            if read(&system, t) != *w { complaints.push(("B-build-C01".to_string(), format!("after a successful build {} holds {:?}, a from-scratch build of the same sources gives {:?}", t, read(&system, t), w))); }
+                        }
+                    }
+                    let mut contents : Vec<Option<String>> = m.targets.iter().map(|t| read(&system, t)).collect();
+                    let k = contents.len(); contents.sort(); contents.dedup();
+                    if quiet_since_ok_build && contents.len() == k && ran != 0
+                    {
+                        complaints.push(("B-build-C02".to_string(), format!("{} command(s) ran in a build that follows a successful build (and possibly a clean) with nothing changed", ran)));
+                    }
+                    for (p, x) in exec_at_clean.iter()
+                    {
+                        if system.is_executable(p).ok() != Some(*x) { complaints.push(("B-build-C10".to_string(), format!("{} was {}executable when it was cleaned away and is {}executable after the build that brought it back", p, if *x { "" } else { "not " }, if *x { "not " } else { "" }))); }
+                    }
+                    exec_at_clean.clear();
+                }
+                quiet_since_ok_build = ok;
+            },
+            Op::Clean =>
+            {
+                is_ruler = true;
+                if drop_table && system.is_file(".ruler/current_file_states") { system.remove_file(".ruler/current_file_states").unwrap(); }
+                let recorded : Vec<(String, bool)> = m.targets.iter().filter(|t| system.is_file(t)).map(|t| (t.to_string(), system.is_executable(t).unwrap_or(false))).collect();
+                let sys2 = system.clone();
+                let cleaned = match std::panic::catch_unwind(std::panic::AssertUnwindSafe(move || clean(sys2, ".ruler", vec!["build.rules".to_string()], None)))
+                {
+                    Ok(r) => r,
+                    Err(_) => { complaints.push(("B-build-C05".to_string(), "clean() panicked".to_string())); verdicts.push(false); continue; },
+                };
+                verdicts.push(cleaned.is_ok());
+                if cleaned.is_ok()
+                {
+                    for t in m.targets.iter() { if system.is_file(t) { complaints.push(("B-build-C10".to_string(), format!("{} is still in the workspace after a clean that reported success", t))); } }
+                    exec_at_clean = recorded;
+                }
+                else { quiet_since_ok_build = false; }
+            },
+        }
+        if is_ruler
+        {
+            let after = snapshot(&system);
+            for (p, st) in before.0.iter() { if !m.targets.contains(&p.as_str()) && after.0.get(p) != Some(st) { complaints.push(("B-build-C09".to_string(), format!("{} is not a target and was changed or removed by the invocation", p))); } }
+            for (p, _) in after.0.iter() { if !m.targets.contains(&p.as_str()) && !before.0.contains_key(p) { complaints.push(("B-build-C09".to_string(), format!("{} is not a target and was created by the invocation", p))); } }
+            if before.1 != after.1 { complaints.push(("B-build-C09".to_string(), format!("the directories outside the ruler directory were {:?} and are {:?} after the invocation", before.1, after.1))); }
+            if let Some(c) = cache_ok(&system) { complaints.push(("B-build-C07".to_string(), c)); }
+            let held_after = held_mini(&system, m.targets);
+            for c in held_before.iter() { if !held_after.contains(c) { complaints.push(("B-build-C08".to_string(), format!("content {:?} was held before the invocation and is gone", c))); } }
+        }
+    }
+    let finals = m.targets.iter().map(|t| read(&system, t)).collect();
+    Outcome { finals, verdicts, complaints }
+}
+
+const RULES_SUBDIR : &str = "\
+out/poem.txt
+:
+verse.txt
+:
+mycat
+verse.txt
+out/poem.txt
+:
+
+out/sub/deep.txt
+:
+refrain.txt
+verse.txt
+:
+mycat
+verse.txt
+refrain.txt
+out/sub/deep.txt
+:
+";
+const RULES_DOTTED : &str = "\
+.config
+:
+defconfig
+:
+mycat
+defconfig
+.config
+:
+
+config
+:
+config.in
+:
+mycat
+config.in
+config
+:
+
+..data
+:
+defconfig
+data
+:
+mycat
+data
+defconfig
+..data
+:
+
+data
+:
+config.in
+:
+mycat
+config.in
+config.in
+data
+:
+";
+const RULES_TOOL : &str = "\
+tool.sh
+:
+tool.src
+:
+mycat
+tool.src
+tool.sh
+:
+
+manual.txt
+:
+tool.src
+intro.txt
+:
+mycat
+intro.txt
+tool.src
+manual.txt
+:
+";
+const RULES_FAILS : &str = "\
+left.txt
+:
+in.txt
+:
+error
+:
+
+right.txt
+:
+in.txt
+:
+error
+:
+
+middle.txt
+:
+in.txt
+:
+mycat
+in.txt
+middle.txt
+:
+
+far.txt
+:
+absent.txt
+:
+mycat
+absent.txt
+far.txt
+:
+";
+
+#[test]
+fn verif_build_mini_scenarios()
+{
+    use Op::*;
+    let minis = vec![
+        Mini { name: "targets in sub-directories", rules: RULES_SUBDIR, files: &[("verse.txt", "Roses are red.\n"), ("refrain.txt", "La la la.\n")], dirs: &["out", "out/sub"],
+               targets: &["out/poem.txt", "out/sub/deep.txt"],
+               histories: vec![
+                   vec![Build, Build, Clean, Build],
+                   vec![Build, Clean, RemoveDir("out/sub"), RemoveDir("out"), Build],
+                   vec![Build, Clean, RemoveDir("out/sub"), Build, MkDir("out/sub"), Build],
+                   vec![Build, Write("verse.txt", "Violets are blue.\n"), Build, Delete("out/sub/deep.txt"), RemoveDir("out/sub"), Write("verse.txt", "Roses are red.\n"), Build],
+                   vec![Build, Write("verse.txt", "Violets are blue.\n"), Build, Write("verse.txt", "Roses are red.\n"), Build, Clean, Build],
+               ] },
+        Mini { name: "names that differ by leading dots", rules: RULES_DOTTED, files: &[("defconfig", "CONFIG_FROM_DEFCONFIG=y\n"), ("config.in", "option from config.in\n")], dirs: &[],
+               targets: &[".config", "config", "..data", "data"],
+               histories: vec![
+                   vec![Build, Build, Delete(".config"), Delete("config"), Build],
+                   vec![Build, Build, Delete("..data"), Delete("data"), Build],
+                   vec![Build, Clean, Build],
+                   vec![Build, Write("defconfig", "CONFIG_NEW=y\n"), Build, Write("defconfig", "CONFIG_FROM_DEFCONFIG=y\n"), Build, Build],
+                   vec![Build, Write("config.in", "another option\n"), Build, Clean, Write("config.in", "option from config.in\n"), Build],
+               ] },
+        Mini { name: "an executable target", rules: RULES_TOOL, files: &[("tool.src", "#!/bin/sh\necho tool\n"), ("intro.txt", "How to use the tool.\n")], dirs: &[],
+               targets: &["tool.sh", "manual.txt"],
+               histories: vec![
+                   vec![Build, SetExec("tool.sh"), Build, Clean, Build],
+                   vec![Build, SetExec("tool.sh"), Clean, Build, Clean, Build],
+                   vec![Build, SetExec("tool.sh"), Build, Write("tool.src", "#!/bin/sh\necho tool 2\n"), Build, Write("tool.src", "#!/bin/sh\necho tool\n"), Build],
+               ] },
+        Mini { name: "several rules fail alike", rules: RULES_FAILS, files: &[("in.txt", "input\n")], dirs: &[],
+               targets: &["left.txt", "right.txt", "middle.txt", "far.txt"],
+               histories: vec![
+                   vec![BuildErrors(3)],
+                   vec![BuildErrors(3), BuildErrors(3)],
+                   vec![BuildErrors(3), Write("absent.txt", "now here\n"), BuildErrors(2)],
+               ] },
+    ];
+    let names = ["B-build-C01", "B-build-C02", "B-build-C04", "B-build-C05", "B-build-C07", "B-build-C08", "B-build-C09", "B-build-C10", "B-build-C18", "B-build-C20"];
+    let mut bad = vec![0u64; names.len()]; let mut cases = 0u64;
+    for m in minis.iter()
+    {
+        for h in m.histories.iter()
+        {
+            cases += 1;
+            let o1 = run_mini(m, h, false); let o2 = run_mini(m, h, true);
+            let mut all = o1.complaints.clone();
+            if o1.finals != o2.finals || o1.verdicts != o2.verdicts { all.push(("B-build-C18".to_string(), format!("with table: {:?} {:?}; table erased: {:?} {:?}", o1.verdicts, o1.finals, o2.verdicts, o2.finals))); }
+            for (name, what) in all.iter() { let k = names.iter().position(|n| n == name).unwrap(); bad[k] += 1; println!("WITNESS {}-mini :: {}: {:?} :: {}", name, m.name, h, what); }
+        }
+    }
+    for (k, n) in names.iter().enumerate() { println!("SUMMARY {}-mini cases={} disagreements={}", n, cases, bad[k]); }
 }
